@@ -13,11 +13,15 @@ F = Fraction
 
 
 def planted(rng, n):
-    """degree-n planar net with B(a) = B(b) for dyadic a < b (one control point solved for)"""
+    """degree-n planar net with B(a) = B(b) for a < b (one control point solved for, then rounded to binary64).
+    a, b have 30 significant bits: NOT break points of the bisection.  (Crossings that sit exactly on a corner of the
+    subdivision grid of a non-dyadic net can be lost by the pure-Python all_intersections - finding F14, pinned in C03 -
+    and would make this sweep report C03's defect instead of testing the self-intersection logic.)"""
     from math import comb
     while True:
         rows = [[F(rng.randint(-12, 12), 2) for _ in range(n + 1)] for _ in range(2)]
-        a, b = sorted((F(rng.randint(1, 7), 16), F(rng.randint(9, 15), 16)))
+        a = F(rng.randint(1, 7), 16) + F(2 * rng.randint(0, 2 ** 24) + 1, 2 ** 30)
+        b = F(rng.randint(9, 14), 16) + F(2 * rng.randint(0, 2 ** 24) + 1, 2 ** 30)
         k = rng.randint(1, n - 1)
         w = lambda j, s: comb(n, j) * s ** j * (1 - s) ** (n - j)
         den = w(k, a) - w(k, b)
